@@ -21,7 +21,7 @@ use cosmwasm_std::{
     Response, StdError, StdResult, Uint128,
 };
 use provwasm_std::types::provenance::attribute::v1::AttributeQuerier;
-use rust_decimal::prelude::{FromPrimitive, FromStr, ToPrimitive, Zero};
+use rust_decimal::prelude::{FromStr, ToPrimitive, Zero};
 use rust_decimal::{Decimal, RoundingStrategy};
 use std::cmp::Ordering;
 use std::collections::HashSet;
@@ -915,22 +915,16 @@ fn reverse_bid(
     // calculate canceled fee size
     let effective_cancel_fee_size = match &bid_order.fee {
         Some(bid_fee) => {
-            let quote_remaining_ratio = bid_order
-                .get_quote_ratio(bid_order.get_remaining_quote() - effective_cancel_quote_size);
-
             // fees required for remaining quote
-            let required_remaining_fees = Decimal::from_u128(bid_fee.amount.u128())
-                .unwrap()
-                .checked_mul(quote_remaining_ratio)
-                .ok_or(ContractError::TotalOverflow)?
-                .round_dp_with_strategy(0, RoundingStrategy::MidpointAwayFromZero)
-                .to_u128()
-                .unwrap();
+            let required_remaining_fees = bid_order.get_fee_for_remaining_quote(
+                bid_fee.amount,
+                bid_order.get_remaining_quote() - effective_cancel_quote_size,
+            )?;
 
             // available fees - fees required = canceled/returned fees
             let effective_cancel_fee_size = bid_order
                 .get_remaining_fee()
-                .checked_sub(required_remaining_fees.into())
+                .checked_sub(required_remaining_fees)
                 .map_err(|_| ContractError::InvalidFields {
                     fields: vec![String::from("size")],
                 })?;
